@@ -98,7 +98,12 @@ pub fn check(c: &Case) -> Outcome {
         if !r.has_interp {
             return Outcome::viol(format!("{}: callback {} carries no interpolant", name, k));
         }
-        let tol = 1e-10 * (1.0 + inf_norm(&r.y).max(inf_norm(&p.y)));
+        // a time argument is only known to an ulp: the state moves by |f|*ulp(t) per ulp of time
+        let mut fy = vec![0.0; r.y.len()];
+        crate::instr::Rhs::f(&prob, r.x, &r.y, &mut fy);
+        let mut fo = vec![0.0; r.y.len()];
+        crate::instr::Rhs::f(&prob, p.x, &p.y, &mut fo);
+        let tol = 1e-10 * (1.0 + inf_norm(&r.y).max(inf_norm(&p.y))) + 8.0 * inf_norm(&fy).max(inf_norm(&fo)) * ulp(r.x.abs().max(r.xold.abs()));
         if max_abs_diff(&r.at_xold, &p.y) > tol || max_abs_diff(&r.at_x, &r.y) > tol {
             return Outcome::viol(format!(
                 "{}: interpolant of callback {} does not reproduce the step's end states: |I(xold)-y_prev|={:e}, |I(x)-y|={:e}",
